@@ -113,6 +113,7 @@ func addStats(o *WorkerOut, res *RunResult) {
 	f["F2_preemption"] += int64(res.Stats.Preemptions)
 	f["F3_clock_preempt"] += int64(res.Stats.ClockPreempt)
 	f["F9_pool_drop"] += int64(res.Stats.PoolDrops)
+	f["F2_long_preemption_stalled_task"] += int64(res.Stats.Stalls)
 	// faults that are part of the generated program: counted when the run executed them
 	for _, t := range res.Prog.Tasks {
 		for _, op := range t {
@@ -144,6 +145,7 @@ func addStats(o *WorkerOut, res *RunResult) {
 	p["clock_advances"] += int64(res.Stats.ClockAdvances)
 	p["adopted_goroutines"] += int64(res.Stats.Adopted)
 	p["killed_tasks"] += int64(res.Stats.Killed)
+	p["map_ranges_with_indistinguishable_keys"] += int64(res.Stats.AmbiguousRanges)
 	for k, v := range res.Probes.Custom {
 		if strings.HasPrefix(k, "F") && len(k) > 2 && k[1] >= '0' && k[1] <= '9' {
 			f[k] += int64(v)
@@ -295,6 +297,15 @@ func TestWorker(t *testing.T) {
 				h.Write([]byte(v.Class))
 			}
 			out.Hashes = append(out.Hashes, fmt.Sprintf("%d %x", idx, h.Sum(nil)[:8]))
+			if dir := os.Getenv("VERIF_DUMP_ALL"); dir != "" {
+				f, _ := os.OpenFile(fmt.Sprintf("%s/%d.txt", dir, os.Getpid()), os.O_APPEND|os.O_CREATE|os.O_WRONLY, 0o644)
+				fmt.Fprintf(f, "=== RUN %d\n%s\n%s\n", idx, strings.Join(res.LogDump, "\n"), strings.Join(traceStrings(res.Trace), "\n"))
+				f.Close()
+			}
+			if d := os.Getenv("VERIF_DUMP_RUN"); d != "" && d == strconv.Itoa(idx) {
+				// debugging aid for the determinism self-test: the rendered history of one run
+				os.WriteFile(os.Getenv("VERIF_DUMP_FILE"), []byte(strings.Join(res.LogDump, "\n")+"\n"+strings.Join(traceStrings(res.Trace), "\n")), 0o644)
+			}
 			continue
 		}
 		if res.Interest {
@@ -312,7 +323,11 @@ func TestWorker(t *testing.T) {
 		if len(res.Violations) > 0 {
 			// a violation fully explained by a listed known finding is recorded
 			// without minimisation and the search goes on
-			if kf := known.match(&ReplayFile{Violation: violationStrings(res.Violations)}); kf != "" && len(res.Violations) <= 6 {
+			all := make([]string, 0, len(res.Violations))
+			for _, v := range res.Violations {
+				all = append(all, "["+v.Class+"] "+v.Msg)
+			}
+			if kf := known.match(&ReplayFile{Violation: all}); kf != "" {
 				found := false
 				for _, s := range out.Known {
 					found = found || s == kf
@@ -601,6 +616,7 @@ func programCandidates(p *Program) []*Program {
 	mod(func(c *Config) bool { ch := !c.OmitCard; c.OmitCard = true; return ch })
 	mod(func(c *Config) bool { ch := c.Faults.HasCloser; c.Faults.HasCloser = false; return ch })
 	mod(func(c *Config) bool { ch := c.PoolDropPct != 0; c.PoolDropPct = 0; return ch })
+	mod(func(c *Config) bool { ch := c.PStall != 0; c.PStall = 0; return ch })
 	mod(func(c *Config) bool { ch := c.Sanitize != nil; c.Sanitize = nil; return ch })
 	mod(func(c *Config) bool { ch := len(c.RootTags) != 0; c.RootTags = nil; return ch })
 	mod(func(c *Config) bool { ch := c.Prefix != ""; c.Prefix = ""; return ch })
